@@ -30,6 +30,9 @@ fn subsets_for(r: &mut impl rand::RngCore, l: usize, exhaustive_upto: usize) -> 
 
 fn one<X: Sx>(ctx: &Ctx, idx: u64, l: usize, exhaustive_upto: usize) {
     let mut r = ctx.rng("c03", idx);
+    if l <= 300 {
+        history_warmup::<X>(ctx, &mut r, l);
+    }
     let (sk, pk) = keypair::<X>(&mut r);
     let msgs = gen_messages(&mut r, l, idx as usize);
     let hdr = Hdr::gen(&mut r, &[1, 16, 300]);
@@ -71,6 +74,14 @@ fn one<X: Sx>(ctx: &Ctx, idx: u64, l: usize, exhaustive_upto: usize) {
         let v = ctx.call("proof_verify", &case, Some(l as u64 + 64), || proof.proof_verify(&pk, dm_opt, d_opt, hdr.as_opt(), ph.as_opt()));
         if !v.outcome.is_ok() {
             ctx.violation("C03:honest-proof-rejected", json!({"outcome":v.outcome.short(),"proof":hx_full(&pb),"d":detail()}));
+        }
+        if k % 4 == 1 {
+            let vo = on_fresh_thread(|| {
+                Pok::<X>::from_bytes(&pb).ok().map(|p2| ctx.call("proof_verify", &case, Some(l as u64 + 64), || p2.proof_verify(&pk, dm_opt, d_opt, hdr.as_opt(), ph.as_opt())).outcome)
+            });
+            if !matches!(vo, Some(Outcome::Ok)) {
+                ctx.violation("C03:proof-rejected-on-fresh-thread", json!({"outcome":vo.map(|o| o.short()),"proof":hx_full(&pb),"d":detail()}));
+            }
         }
         let dec = ctx.call("from_bytes", &case, Some(l as u64 + 64), || Pok::<X>::from_bytes(&pb));
         match dec.value {
